@@ -268,8 +268,16 @@ def mux_module_of(h):
     return MUXH.get(h, "task_h.rs")
 
 
+# written, but beyond reach on this machine (reason): never selected by a tier, see DESIGN §8
+OFF = {
+    "c07_request_acked": "new_stream_channel through to the Acknowledge: out of memory at 26 GB (the sub-steps are covered by c07_request, c10_ack_requested, c03/c07 handshake instances)",
+    "c07_request_rejected_r2": "two rejected attempts of new_stream_channel: out of memory at 26 GB (one rejected attempt, c07_request_rejected_r1, is covered)",
+    "c08_keepalive_silent_transport": "the whole connection task (Task::start) polled through a keepalive timeout: symbolic execution not finished after 4500 s",
+    "c08_wind_down_peer_ended_inflight": "wind_down with a frame still in the source: symbolic execution not finished after 1200 s (process_message as a nested coroutine)",
+    "c08_wind_down_local_drop_inflight": "wind_down with a frame still in the source: symbolic execution not finished after 1200 s (process_message as a nested coroutine)",
+}
 HEAVY = {  # harness -> (mem_gb, timeout_s): thorough tier only
-    "c07_request_acked": (26, 2400), "c07_request_rejected_r2": (26, 2400), "c11_send_h255_p1": (20, 1800), "c11_send_h256_p1": (20, 1800),
+    "c11_send_h255_p1": (20, 1800), "c11_send_h256_p1": (20, 1800),
     "c12_race_ack_w0": (12, 1200), "c06_peer_reset_app_view": (12, 1200),
 }
 
@@ -282,7 +290,7 @@ def mux_prop(pid, names, thorough_only=(), notes=None, extra_unwindset=(), **kw)
     hs = []
     for n in names:
         heavy = HEAVY.get(n)
-        tier = "thorough" if (n in thorough_only or heavy or n.startswith("c10_connect_")) else "quick"
+        tier = "off" if n in OFF else ("thorough" if (n in thorough_only or heavy or n.startswith("c10_connect_")) else "quick")
         mem, tmo = heavy if heavy else ((26, 2400) if n.startswith("c10_connect_") else (None, None))
         for rx, mt in QUICK_HEAVY.items():
             if re.match(rx, n):
